@@ -80,7 +80,7 @@ std::string version_to_schema(int ma, int mi, int pa, bool desktop_family)
 struct Case
 {
     eng::engine_schema schema;
-    int mode;  // 0 = on disk, 1 = temporary
+    int mode;  // 0 = create_database on disk, 1 = temporary (World), 2 = public create_temporary_database, 3 = create_or_load_database on an empty directory
 };
 
 int run(const Options& o)
@@ -92,7 +92,7 @@ int run(const Options& o)
     auto refs = find_refs();
     std::vector<Case> cases;
     for (auto s : all_schemas())
-        for (int mode = 0; mode < 2; ++mode) cases.push_back({s, mode});
+        for (int mode = 0; mode < 4; ++mode) cases.push_back({s, mode});
     if (!o.only.empty())
     {
         // "<schema>|<mode>"
@@ -108,12 +108,29 @@ int run(const Options& o)
             const std::string sn = schema_name(c.schema);
             const std::string cid = sn + "|" + std::to_string(c.mode);
             const bool v2 = is_v2(c.schema);
-            const char* how = c.mode == 0 ? "create_database" : "create_temporary_database";
+            const char* how = c.mode == 0 ? "create_database" : c.mode == 3 ? "create_or_load_database (nothing there yet)" : "create_temporary_database";
             auto viol = [&](const std::string& inv, const std::string& what) { a.violation(sn + "|" + inv, "[" + sn + ", " + how + "] " + what, cid); };
             std::string dir = scratch_dir() + "/c12." + std::to_string(getpid()) + "." + std::to_string(ci);
             std::map<std::string, std::map<std::string, std::string>> created;  // "m" / "p" -> fingerprint
             {
-                std::unique_ptr<World> w(c.mode == 0 ? new World(c.schema, dir, 0) : new World(c.schema));
+                std::unique_ptr<World> w;
+                if (c.mode == 0) w.reset(new World(c.schema, dir, 0));
+                else if (c.mode == 1) w.reset(new World(c.schema));
+                else
+                {
+                    // the remaining public creation paths: the World adopts the database they return
+                    size_t before = seam::opened_handles().size();
+                    bool created_flag = false;
+                    eng::engine_schema reported = eng::engine_schema::schema_3_0_0;
+                    dj::database d = c.mode == 2 ? eng::create_temporary_database(c.schema) : eng::create_or_load_database(dir, c.schema, created_flag, reported);
+                    if (seam::opened_handles().size() <= before) throw std::runtime_error("C12: SQLite handle not captured");
+                    w.reset(new World(c.schema, d, seam::opened_handles().back()));
+                    if (c.mode == 3)
+                    {
+                        if (!created_flag) viol("create_or_load_not_created", "create_or_load_database on an empty directory reports created = false");
+                        // the loaded_schema out-parameter is documented as "not defined if a new database was created": no demand on it
+                    }
+                }
                 try { w->db.verify(); } catch (const std::exception& e) { viol("created_fails_verify", std::string("verify() rejects the created library: ") + e.what()); }
                 created["m"] = sfp::fingerprint(w->handle, v2 ? "main" : "music");
                 if (!v2) created["p"] = sfp::fingerprint(w->handle, "perfdata");
@@ -130,7 +147,7 @@ int run(const Options& o)
                 if (w->db.version_name() != eng::to_string(c.schema)) viol("version_name", "version_name() = " + w->db.version_name());
                 a.count("evaluations");
             }
-            if (c.mode == 0)
+            if (c.mode == 0 || c.mode == 3)
             {
                 try
                 {
@@ -224,7 +241,7 @@ int run(const Options& o)
     c["transitions"] = total.get("comparisons");
     c["traces_validated_against_impl"] = total.get("validated");
     c["rule"] =
-        "The whole configuration space: each of the 18 supported versions created on disk and as a temporary library, compared with EVERY reference dump (" + std::to_string(refs.size()) +
+        "The whole configuration space: each of the 18 supported versions created through every public creation path (create_database on disk, v2::engine_library::create_temporary / v1 temporary, create_temporary_database, create_or_load_database on an empty directory, which must also report created = true; its loaded_schema out-parameter is documented as undefined in that case and is not looked at), compared with EVERY reference dump (" + std::to_string(refs.size()) +
         " directories) whose own Information row carries that version (1.18.0: ep/ dumps are the desktop variant, sc5000/ the OS variant). Fingerprint per object: tables by PRAGMA table_xinfo, "
         "foreign_key_list, index_list + index_xinfo; views, triggers and explicit indices by their sqlite_master text, lower-cased, whitespace collapsed, [x] / \"x\" / `x` quoting removed; object sets "
         "must match in both directions. Also: every Information table (m.db and p.db) carries the requested version triple, verify() passes, version_name() matches, and reloading the on-disk "
